@@ -252,7 +252,7 @@ func c01Aliases(r *rand.Rand, words []string) map[string]string {
 	m := map[string]string{}
 	n := 1 + r.IntN(4)
 	names := append([]string{"a", "b", "ls", "x"}, words...)
-	vals := []string{"a", "b", "a b", "b ", "a ", "ls -l", "x; a", "if", "then", "fi", "{", "}", "(", ")", "a\n", "a\nb", "b=1", "<f", "x |", "&&", "for", "while a; do", "'", "$(", "a #c", "", " ", "\\"}
+	vals := []string{"a", "b", "a b", "b ", "a ", "ls -l", "x; a", "if", "then", "fi", "{", "}", "(", ")", "a\n", "a\nb", "b=1", "<f", "x |", "&&", "for", "while a; do", "'", "$(", "a #c", "", " ", "\\", "b $(a ; b)", "a `a | b`", "x $(b) y", "b;a|x", "a\n$(x ; ls)", "b $((1+2)) ${x:-$(a;b)}"}
 	for i := 0; i < n; i++ {
 		k := pick(r, names)
 		v := pick(r, vals)
